@@ -195,6 +195,12 @@ fn tag_call_mismatch(exp: &Outcome, obs: &Obs, mode: Mode) -> Vec<&'static str> 
                 vec!["C02"]
             }
         }
+        // the mock should have failed the call with one of its own errors, but a foreign panic came out of it (e.g.
+        // from its own message formatting): the call is not identified (C19) and the error cannot have been
+        // remembered for verification (C08)
+        (Outcome::MockPanic { .. }, Obs::PanicStatic(_)) | (Outcome::MockPanic { .. }, Obs::PanicOther) => {
+            vec!["C07", "C08", "C19"]
+        }
         // a matcher that should not have been consulted (a pattern after the answering one) was run
         (Outcome::Value(_), Obs::UserPanic("matcher")) | (Outcome::MockPanic { .. }, Obs::UserPanic("matcher")) => {
             vec![sel, "C11"]
@@ -214,7 +220,7 @@ fn outcome_matches(exp: &Outcome, obs: &Obs) -> bool {
 }
 
 /// C19-ish sanity on a matching mock panic: the message names the method (and the pattern when it has debug info)
-fn naming_ok(exp: &Outcome, msg: &str, spec: &Spec) -> bool {
+pub fn naming_ok(exp: &Outcome, msg: &str, spec: &Spec) -> bool {
     if let Outcome::MockPanic { kind, method, pat } = exp {
         if !msg.contains(&method.path()) {
             return false;
